@@ -23,6 +23,11 @@ func callArg[T any](name string, k int, i int) T { var z T; return z }
 func callResult[T any](name string, k int) T     { var z T; return z }
 func callOrder(a string, i int, b string, j int) bool { return true }
 func atEntry[T any](x T) T                       { return x }
+type ev struct{}
+
+func fullSeq(evs ...ev) bool                      { return true }
+func evCall(name string) ev                      { return ev{} }
+func eq[T any](a, b T) bool                      { return true }
 func fresh(x any) bool                           { return true }
 
 // Compile builds a fresh writer (and a fresh mapper when a source map is requested) per call, configured from the
@@ -39,9 +44,14 @@ func fresh(x any) bool                           { return true }
 //@   ensures [code.pretty@C06] implies(c.prettyPrint, result.Code == callResult[string]("cleanEmptyLines", 0) && callArg[string]("cleanEmptyLines", 0, 0) == callResult[string]("(*CodeWriter).String", 0))
 //@   ensures [map@C08,C14] (result.SourceMap != nil) == c.generateSourceMap
 
+// Post-processing of pretty output, as a call-sequence contract: trim the whole text, split it at line breaks, trim
+// trailing spaces (only spaces) of every line in place, join the same lines again. No line is dropped, added or reordered.
 //@ func cleanEmptyLines
-//@   props C06 C14 C11
+//@   props C06 C14 C11 C15 C07
 //@   loop 1 invariant [frame] len(lines) == atEntry(len(lines))
+//@   loop 1 before [mechanism@C06,C15,C07] fullSeq(evCall("strings.TrimSpace"), evCall("strings.Split")) && callArg[string]("strings.TrimSpace", 0, 0) == code && callArg[string]("strings.Split", 0, 0) == callResult[string]("strings.TrimSpace", 0) && callArg[string]("strings.Split", 0, 1) == "\n"
+//@   loop 1 each [mechanism@C06,C15,C07] fullSeq(evCall("strings.TrimRight")) && callArg[string]("strings.TrimRight", 0, 1) == " " && callArg[string]("strings.TrimRight", 0, 0) == line && lines[i] == callResult[string]("strings.TrimRight", 0)
+//@   ensures [mechanism@C06,C15,C07] fullSeq(evCall("strings.Join")) && callArg[string]("strings.Join", 0, 1) == "\n" && result == callResult[string]("strings.Join", 0) && len(callArg[[]string]("strings.Join", 0, 0)) == len(callResult[[]string]("strings.Split", 0))
 
 //@ func New
 //@   props C14
